@@ -42,6 +42,11 @@ def _ledger_models(tier, invariants, properties, epsilon_model=False):
     # price, not a missing one
     ms.append(model("sf-zero-bid", ["F5"], ["quote", "trade", "value", "markall"], 6, fees="free", bids=(0, 8), spreads=(2,),
                     dqs=(-1, 1), invariants=invariants, properties=properties))
+    # large orders next to a small residual: buy 16384 + 2^-10, sell 16384 - what is left (2^-10, far above the broker's
+    # dust threshold of 1e-7) is a position like any other, whatever the size of the trade that left it
+    big = F(16384)
+    ms.append(model("sf-large", ["S1", "G1"], ["quote", "trade", "value"], 4, fees="free", bids=(8,), spreads=(0, 2),
+                    dqs=(big + F(1, 1024), -big), invariants=invariants, properties=properties))
     # orders priced on an earlier book and executed through Broker.transact after the book has moved
     ms.append(model("sf-offbook", ["S5", "F5"], ["quote", "trade", "tradeat", "value"], 4 if tier == "quick" else 5, fees="paid",
                     bids=(8, 12), spreads=(0, 2), dqs=(-1, 2), invariants=invariants, properties=properties))
